@@ -172,8 +172,23 @@ func (w *world) monSub(r subReq, res result) {
 		}
 		return
 	}
-	ok, why := true, ""
 	args := []string{hx([]byte(r.origin)), fmt.Sprint(r.s), fmt.Sprint(r.e), fmt.Sprint(r.n)}
+	ok, why, ok2, why2 := w.judgeSub(r, res.raw, true)
+	if !ok2 {
+		why2 += "; history: " + w.history(r.origin)
+	}
+	mon("mon_subsig", args, ok, why)
+	mon("mon_subcosigned", args, ok2, why2)
+}
+
+// the verdict on a 200 answer (raw = its signature lines) to the sign-subtree request r:
+//   - (ok, why)   mon_subsig: signer keys, range, hash against the ground-truth tree, the signer has a line on the
+//     presented checkpoint that verifies under the PUBLIC verifier, the subtree signature verifies (if verify)
+//   - (ok2, why2) mon_subcosigned: the signing key really cosigned that (origin, size, root) in this run
+//
+// Both are exact (no schedule can make them fail on a correct witness), so they also judge the racy stress.
+func (w *world) judgeSub(r subReq, raw string, verify bool) (ok bool, why string, ok2 bool, why2 string) {
+	ok, ok2 = true, true
 	if !(r.s >= 0 && r.s < r.e && r.s%bitCeil(r.e-r.s) == 0) {
 		ok, why = false, "signature for an invalid subtree range"
 	}
@@ -194,8 +209,7 @@ func (w *world) monSub(r subReq, res result) {
 		}
 	}
 	nl := 0
-	ok2, why2 := true, ""
-	for _, l := range strings.SplitAfter(res.raw, "\n") {
+	for _, l := range strings.SplitAfter(raw, "\n") {
 		if l == "" {
 			continue
 		}
@@ -212,22 +226,21 @@ func (w *world) monSub(r subReq, res result) {
 		// ground truth, independent of what the request presents: did this key ever cosign that tree?
 		if !w.kr.cosigned[id][treeKey(r.origin, fmt.Sprint(r.n), r.root)] {
 			ok2 = false
-			why2 = fmt.Sprintf("key %d signed subtree [%d,%d) hash %x under checkpoint size %d root %x(%s) of %s, a tree this key NEVER cosigned (it cosigned %d checkpoints in this run); presented signature lines: %s; history: %s",
-				id, r.s, r.e, r.sh[:4], r.n, r.root[:4], w.which(r.n, r.root), r.origin, len(w.kr.cosigned[id]), w.presented(r.note.bytes), w.history(r.origin))
+			why2 = fmt.Sprintf("key %d signed subtree [%d,%d) hash %x under checkpoint size %d root %x(%s) of %s, a tree this key NEVER cosigned (it cosigned %d checkpoints in this run); presented signature lines: %s",
+				id, r.s, r.e, r.sh[:4], r.n, r.root[:4], w.which(r.n, r.root), r.origin, len(w.kr.cosigned[id]), w.presented(r.note.bytes))
 		}
 		if !valid[id] {
 			ok, why = false, fmt.Sprintf("key %d signed although it has no valid cosignature on the presented checkpoint", id)
 		}
 		v := w.kr.keys[id].verifier.(*torchwood.CosignatureVerifier)
-		if !v.VerifySubtree(r.origin, r.s, r.e, r.sh, []byte(l)) {
+		if verify && !v.VerifySubtree(r.origin, r.s, r.e, r.sh, []byte(l)) {
 			ok, why = false, fmt.Sprintf("subtree signature of key %d does not verify with the public subtree verifier", id)
 		}
 	}
 	if nl == 0 {
 		ok, why = false, "200 without any signature"
 	}
-	mon("mon_subsig", args, ok, why)
-	mon("mon_subcosigned", args, ok2, why2)
+	return
 }
 
 // the signature lines of a presented note: key id, verdict of the public verifier, and where the blob comes from
